@@ -246,6 +246,10 @@ type action struct {
 	TS      int  `json:"ts,omitempty"`       // tsFresh | tsSame (the previous run's timestamp again) | tsBack (earlier than every timestamp so far)
 	Dry     bool `json:"dry,omitempty"`      // --dry_run
 	Fault   int  `json:"fault,omitempty"`    // k > 0: transactional back end whose k-th mutating operation fails
+	// WT with Fault: the fault hits the plain write-through back end instead (localnonvcs as shipped:
+	// every write goes straight to disk, nothing is rolled back). Only armed for a manifest-method run
+	// whose target endorsement file does not exist yet; otherwise the run is executed without a fault.
+	WT bool `json:"wt,omitempty"`
 }
 
 const (
@@ -269,7 +273,9 @@ func (a action) String() string {
 	if a.Dry {
 		ext += " dry"
 	}
-	if a.Fault > 0 {
+	if a.Fault > 0 && a.WT {
+		ext += fmt.Sprintf(" wt-fault@%d", a.Fault)
+	} else if a.Fault > 0 {
 		ext += fmt.Sprintf(" fault@%d", a.Fault)
 	}
 	if a.Snap > 0 {
@@ -415,6 +421,20 @@ type world struct {
 	cur    tree // the tree as last read (nil: read it)
 	log    []string
 	rec    *recVCS // the back end of the run just executed
+	disarm bool    // the run about to be executed must not get its fault (write-through precondition not met)
+}
+
+// wtArmed: a write-through fault is only injected into a manifest-method run that creates a NEW
+// endorsement file. There the shipped order (endorsement file, its mode, then the manifest) keeps the
+// tree consistent at every failure point (at worst an unlisted file is left behind). A run that
+// rewrites an existing file in place cannot be kept in step with its entry on a back end without
+// roll-back, whatever the order; such runs get their faults on the transactional back end only.
+func wtArmed(a action, pre tree, p *pool) bool {
+	if !a.WT || a.Fault <= 0 || a.Snap > 0 || a.Dry {
+		return false
+	}
+	_, exists := pre[a.targets(p)[0]]
+	return !exists
 }
 
 // svsmImage/svsmMeasurement: what a run with an SVSM supplies (the contents play no role here).
@@ -440,7 +460,11 @@ func (w *world) run(a action) (err error, pan any) {
 		ts = baseTime.Add(-time.Duration(w.tick) * time.Second)
 	}
 	w.lastTS = ts
-	w.rec = newRecVCS(w.root, a.Fault > 0, a.Fault)
+	failAt := a.Fault
+	if w.disarm {
+		failAt = 0
+	}
+	w.rec = newRecVCS(w.root, failAt > 0 && !a.WT, failAt)
 	ec := &endorse.Context{
 		SevSnp: &sev.SnpEndorsementRequest{
 			Svn:         2,
@@ -613,6 +637,14 @@ func (w *world) judge(a action, pre, post tree, err error, pan any) (*verdict, r
 		return bad(kPanic, "the endorse run panicked: %v", pan)
 	}
 	faulted := w.rec != nil && w.rec.fired
+	// A run that failed half-way on the write-through back end: only the clauses that do not depend on
+	// the run having succeeded are judged. What it left behind may legitimately move the digest of the
+	// earlier "latest successful run" (everything was written, only the commit failed), so that
+	// reference is dropped until the next successful run.
+	wtFailed := faulted && a.WT && err != nil
+	if wtFailed && !res.dirSame {
+		w.last = nil
+	}
 
 	// A successful manifest-method run that is not a dry run becomes "the latest successful run". The
 	// files it wrote are the ones it published through the version-control abstraction.
@@ -757,6 +789,10 @@ func (w *world) judge(a action, pre, post tree, err error, pan any) (*verdict, r
 		}
 	case res.outcome == "fault":
 		res.class = fmt.Sprintf("fault@%d/%s", a.Fault, res.mergeCase)
+		if a.WT {
+			res.class = "wt-" + res.class
+			res.nontrivial = !res.dirSame // the failed run left something behind, and every clause still held
+		}
 		if !res.dirSame {
 			res.class += "/tree-changed"
 		}
@@ -853,6 +889,7 @@ func (w *world) step(a action) (*verdict, result, tree) {
 }
 
 func (w *world) stepFrom(a action, pre tree) (*verdict, result, tree) {
+	w.disarm = a.WT && a.Fault > 0 && !wtArmed(a, pre, w.p)
 	err, pan := w.run(a)
 	post := readTree(w.root)
 	e := "ok"
@@ -1063,6 +1100,28 @@ func TestRegressionFaults(t *testing.T) {
 	replay(t, name, regressionPool, steps, true)
 }
 
+var wtPool = poolSpec{ImageSeeds: []int{11, 12, 13}, Names: []string{"", "a1", "a2", "a3", "a4", "b1", "b2", "b3", "b4", "sub/c1", "sub/c2"}}
+
+const wtRule = "write-through faults: the run goes to the plain write-through back end (localnonvcs as shipped: every write is on disk at once, Destroy rolls nothing back) and its k-th mutating step fails (a step = one file of a WriteOrCreateFiles call, one mode change, the commit; the files of a batch before the failing one are on disk). Only manifest-method runs whose target endorsement file does NOT exist yet get such a fault (a run that rewrites a file in place cannot be kept in step with its entry without roll-back, whatever the order: those get faults on the transactional back end only). After the failed run only the clauses that do not depend on its success are judged: manifest parses, no two entries name one file, digests distinct, every entry names an existing authentic endorsement whose signed digest equals the entry's, nothing replaced without overwrite; 'latest successful run' is not judged after a failed run that changed the tree"
+
+// The manifest must never name an endorsement that is not there: on the write-through back end the
+// endorsement file (and its mode) has to be in place before the manifest that lists it.
+func TestRegressionWriteThroughFaults(t *testing.T) {
+	const name = "regression/write-through-faults"
+	ev.Rule(name, "hand-written replay: endorse(img0, default name); then endorse(img1, new name a_k) with write-through fault k = 1..4 (append: endorsement write, mode change, manifest write, commit); then endorse(img0, new name b_k) with write-through fault k = 1..4 (same-digest-new-path: the entry of img0 moves); then endorse(img2, new name in a NEW sub-directory) with fault 1..2; "+wtRule+"; non-trivial = a failed run that left something behind; distinct = (state, action)")
+	steps := []st{{action{Img: 0, Name: 0}, "ok/append"}}
+	for k := 1; k <= 4; k++ {
+		steps = append(steps, st{action{Img: 1, Name: k, Fault: k, WT: true}, ""})
+	}
+	for k := 1; k <= 4; k++ {
+		steps = append(steps, st{action{Img: 0, Name: 4 + k, Fault: k, WT: true}, ""})
+	}
+	for k := 1; k <= 2; k++ {
+		steps = append(steps, st{action{Img: 2, Name: 8 + k, Fault: k, WT: true}, ""})
+	}
+	replay(t, name, wtPool, steps, false)
+}
+
 // ---------------------------------------------------------------------------------------------
 // Sub-check A: sampled histories
 
@@ -1133,7 +1192,7 @@ var extAlias = []string{"./rc1", "sub/../rc1", "../out/rc1", "sub//rc2", "endors
 
 func TestExtendedHistories(t *testing.T) {
 	const name = "histories/extended"
-	ev.Rule(name, "as histories/sampled, with 5 firmware images and every input of a run varied: candidate names from {\"\", rc1, sub/rc2, rc3, rc4 (5 files: manifests of 4+ entries), names that need escaping in the text manifest (quote+backslash, non-ASCII, newline), a name that is not valid UTF-8}; in 30% of the histories also other SPELLINGS of the same files (./rc1, sub/../rc1, ../out/rc1, sub//rc2, endorsement); timestamp of the run in {fresh 40%, the previous run's again 20%, earlier than all so far 40%}; --dry_run 10%; snapshot method 20% into snap/a|snap/b with firmware file name ovmf.fd|b.fd and with/without an SVSM image (second endorsement file svsm.igvm.signed); 10% of the runs on the transactional back end with the k-th (1..5) mutating workspace operation failing. Actions are drawn one by one against the current tree: the name is steered (nominal weights, rapid leans to the first alternative: uniform 6, a name whose file exists 7, a name whose file exists but is not listed 5, a new name together with an image that is not listed 6 = the manifest grows), the image is otherwise steered (50% an image whose digest is listed). 1-12 runs. Oracle: all clauses of C13 after every run, as in histories/sampled; a dry run and a snapshot run do not become 'the latest successful run'. non-trivial = a successful manifest-method run that meets same-path-new-digest, same-digest-new-path or path-and-digest-in-different-entries, or a snapshot-method run (successful or refused) one of whose target endorsement files exists; distinct = (abstract state before, action); classes dim/* count the runs that exercise each varied input against existing state")
+	ev.Rule(name, "as histories/sampled, with 5 firmware images and every input of a run varied: candidate names from {\"\", rc1, sub/rc2, rc3, rc4 (5 files: manifests of 4+ entries), names that need escaping in the text manifest (quote+backslash, non-ASCII, newline), a name that is not valid UTF-8}; in 30% of the histories also other SPELLINGS of the same files (./rc1, sub/../rc1, ../out/rc1, sub//rc2, endorsement); timestamp of the run in {fresh 40%, the previous run's again 20%, earlier than all so far 40%}; --dry_run 10%; snapshot method 20% into snap/a|snap/b with firmware file name ovmf.fd|b.fd and with/without an SVSM image (second endorsement file svsm.igvm.signed); 10% of the runs on the transactional back end with the k-th (1..5) mutating workspace operation failing; 12% (when the run is a manifest-method run whose target file does not exist) with a write-through fault k = 1..4 ("+wtRule+"). Actions are drawn one by one against the current tree: the name is steered (nominal weights, rapid leans to the first alternative: uniform 6, a name whose file exists 7, a name whose file exists but is not listed 5, a new name together with an image that is not listed 6 = the manifest grows), the image is otherwise steered (50% an image whose digest is listed). 1-12 runs. Oracle: all clauses of C13 after every run, as in histories/sampled; a dry run and a snapshot run do not become 'the latest successful run'. non-trivial = a successful manifest-method run that meets same-path-new-digest, same-digest-new-path or path-and-digest-in-different-entries, or a snapshot-method run (successful or refused) one of whose target endorsement files exists; distinct = (abstract state before, action); classes dim/* count the runs that exercise each varied input against existing state")
 	checks(ev.Scale(350, 1500))
 	var c tally
 	rapid.Check(t, func(t *rapid.T) {
@@ -1245,11 +1304,18 @@ func genExtAction(t *rapid.T, p *pool, cur tree) action {
 		a.ImgName = rapid.IntRange(0, len(imageNames)-1).Draw(t, "imageName")
 		a.Svsm = rapid.Bool().Draw(t, "svsm")
 	}
-	switch pick(t, "mode", 40, 5, 5) {
+	switch pick(t, "mode", 36, 5, 5, 6) {
 	case 1:
 		a.Dry = true
 	case 2:
 		a.Fault = rapid.IntRange(1, 5).Draw(t, "faultAt")
+	case 3:
+		// write-through fault: only a manifest-method run that creates a new file is given one
+		a.Fault = rapid.IntRange(1, 4).Draw(t, "wtFaultAt")
+		a.WT = true
+		if !wtArmed(a, cur, p) {
+			a.Fault, a.WT = 0, false
+		}
 	}
 	return a
 }
@@ -1315,6 +1381,9 @@ func closure(t *testing.T, name string, ps poolSpec, ordered bool, stateCap int,
 			}
 		}
 		for _, a := range acts {
+			if a.WT && a.Fault > 0 && !wtArmed(a, nd.tree, p) {
+				continue // a write-through fault is only defined for a run that creates a new file
+			}
 			setup()
 			v, res, post := w.stepFrom(a, nd.tree)
 			edges++
@@ -1399,6 +1468,23 @@ func TestClosureAliases(t *testing.T) {
 	const name = "closure/aliases"
 	ev.Rule(name, "2 firmware images x candidate names {rc1, ./rc1, ../out/rc1 (three spellings of rel/out/rc1.binarypb), sub/rc2}, actions = image x name x overwrite{F,T}, manifest method: "+closureRule)
 	closure(t, name, aliasPool, true, 2000, manifestActions(2, 4))
+}
+
+func TestClosureWriteThroughFaults(t *testing.T) {
+	if s, _ := strconv.Atoi(os.Getenv("VERIF_SHARD")); s != 0 {
+		t.Skip("shard 0 runs the closures")
+	}
+	const name = "closure/write-through-faults"
+	ev.Rule(name, "2 firmware images x 2 candidate names {rc1, sub/rc2}: actions = image x name x overwrite{F,T} (manifest method, no fault) plus, from every state in which the target file does not exist, image x name x write-through fault k = 1..4; "+wtRule+". "+closureRule)
+	acts := manifestActions(2, 2)
+	for i := 0; i < 2; i++ {
+		for n := 0; n < 2; n++ {
+			for k := 1; k <= 4; k++ {
+				acts = append(acts, action{Img: i, Name: n, Fault: k, WT: true})
+			}
+		}
+	}
+	closure(t, name, poolSpec{ImageSeeds: []int{1, 2}, Names: []string{"rc1", "sub/rc2"}}, true, 1000, acts)
 }
 
 func TestClosure4x4(t *testing.T) {
